@@ -19,7 +19,7 @@ open QipVerif.Route
 
 /-- **(i) indices.** Every qubit index of every gate emitted for a handled gate is `< N`. -/
 theorem route_in_range (N : Nat) (setup : Setup) (hs : setup = .linear ∨ setup = .circular)
-    (g : Gate) (hw : WellFormed N g) (hh : Handled g) (out : List Gate)
+    (g : Route.Gate) (hw : WellFormed N g) (hh : Handled g) (out : List Route.Gate)
     (ho : routeGate N setup g = .ok out) : ∀ h ∈ out, ∀ q ∈ h.qubits, q < N := by
   obtain ⟨out', S, G, a, b, h1, -, -, ha, hb, hr, -, hq⟩ := routeGate_handled_spec N setup hs g hw hh
   rw [h1] at ho; cases ho
@@ -29,7 +29,7 @@ theorem route_in_range (N : Nat) (setup : Setup) (hs : setup = .linear ∨ setup
     have tb := hr.track_lt hb
     rcases hq with hq | hq <;> (rw [hq] at hq'; simp at hq'; rcases hq' with rfl | rfl <;> assumption)
   · have := hr.swaps_ok p hp
-    simp [Gate.qubits, swapG] at hq'
+    simp [Route.Gate.qubits, swapG] at hq'
     rcases hq' with rfl | rfl
     · exact this.1
     · exact this.2.1
@@ -43,7 +43,7 @@ example : WellFormed 9 ⟨.CNOT, [0], [5], 0, 0⟩ ∧ Handled ⟨.CNOT, [0], [5
 /-- **(ii) adjacency.** Every gate emitted for a handled gate is a two-qubit gate on neighbours of
 the topology: `(i, i+1)`, or the wrap pair `{0, N-1}` on a ring. -/
 theorem route_adjacent (N : Nat) (setup : Setup) (hs : setup = .linear ∨ setup = .circular)
-    (g : Gate) (hw : WellFormed N g) (hh : Handled g) (out : List Gate)
+    (g : Route.Gate) (hw : WellFormed N g) (hh : Handled g) (out : List Route.Gate)
     (ho : routeGate N setup g = .ok out) : ∀ h ∈ out, ∃ i j, h.qubits = [i, j] ∧ Adj setup N i j := by
   obtain ⟨out', S, G, a, b, h1, -, -, -, -, hr, -, hq⟩ := routeGate_handled_spec N setup hs g hw hh
   rw [h1] at ho; cases ho
@@ -60,7 +60,7 @@ example : Adj .circular 9 8 0 ∧ ¬ Adj .linear 9 8 0 ∧ Adj .linear 9 6 7 := 
 neighbouring in-range qubits, `S' = S` reversed; `G` has the gate's name, its control is where `S`
 moved the control and its target where `S` moved the target; `S ++ S'` is the identity permutation. -/
 theorem route_shape_ctl (N : Nat) (setup : Setup) (hs : setup = .linear ∨ setup = .circular)
-    (g : Gate) (c t : Nat) (hnm : g.name.isCtl = true) (hC : g.controls = [c]) (hT : g.targets = [t])
+    (g : Route.Gate) (c t : Nat) (hnm : g.name.isCtl = true) (hC : g.controls = [c]) (hT : g.targets = [t])
     (hct : c ≠ t) (hc : c < N) (ht : t < N) :
     ∃ S : List (Nat × Nat),
       routeGate N setup g = .ok (swaps S ++ ⟨g.name, [track S c], [track S t], 0, 0⟩ :: swaps S.reverse) ∧
@@ -79,7 +79,7 @@ example : ∃ S, S = [(4, 5), (6, 0)] ∧ track S 4 = 5 ∧ track S 0 = 6 ∧
 as above; `G` keeps name and argument and acts on the images of the two targets, listed in one
 of the two orders (these gates are symmetric, see `SwapLaws.exch_symm`). -/
 theorem route_shape_swp (N : Nat) (setup : Setup) (hs : setup = .linear ∨ setup = .circular)
-    (g : Gate) (t0 t1 : Nat) (hnm : g.name.isSwp = true) (hT : g.targets = [t0, t1])
+    (g : Route.Gate) (t0 t1 : Nat) (hnm : g.name.isSwp = true) (hT : g.targets = [t0, t1])
     (h01 : t0 ≠ t1) (h0 : t0 < N) (h1 : t1 < N) :
     ∃ (S : List (Nat × Nat)) (p q : Nat),
       routeGate N setup g = .ok (swaps S ++ ⟨g.name, [], [p, q], g.arg, 0⟩ :: swaps S.reverse) ∧
@@ -97,39 +97,39 @@ example : routeGate 6 .linear ⟨.SWAPalpha, [], [5, 1], 7, 0⟩ =
 /-! ## pass-through and circuits -/
 
 /-- **(iv)** a gate the router does not handle (any other name, a measurement) comes out as it is -/
-theorem route_passthrough (N : Nat) (setup : Setup) (g : Gate) (h : ¬ Handled g) :
+theorem route_passthrough (N : Nat) (setup : Setup) (g : Route.Gate) (h : ¬ Handled g) :
     routeGate N setup g = .ok [g] := routeGate_other h
 
 example : ¬ Handled ⟨.other 3, [0, 4], [2], 5, 1⟩ ∧ ¬ Handled ⟨.meas 0, [], [1], 0, 0⟩ := by decide
 
 /-- **(iv)** the output of a circuit is the concatenation, in order, of the per-gate outputs -/
-theorem route_concat (N : Nat) (setup : Setup) (gs out : List Gate) :
+theorem route_concat (N : Nat) (setup : Setup) (gs out : List Route.Gate) :
     toChain N setup gs = .ok out ↔
-      ∃ parts : List (List Gate), gs.map (routeGate N setup) = parts.map Except.ok ∧ out = parts.flatten :=
+      ∃ parts : List (List Route.Gate), gs.map (routeGate N setup) = parts.map Except.ok ∧ out = parts.flatten :=
   toChain_concat N setup gs out
 
 /-- … in particular routing distributes over concatenation of circuits -/
-theorem route_append (N : Nat) (setup : Setup) (gs₁ gs₂ out : List Gate) :
+theorem route_append (N : Nat) (setup : Setup) (gs₁ gs₂ out : List Route.Gate) :
     toChain N setup (gs₁ ++ gs₂) = .ok out ↔
       ∃ a b, toChain N setup gs₁ = .ok a ∧ toChain N setup gs₂ = .ok b ∧ out = a ++ b :=
   toChain_append N setup gs₁ gs₂ out
 
 /-- routing a circuit of well-formed gates never raises -/
 theorem route_total (N : Nat) (setup : Setup) (hs : setup = .linear ∨ setup = .circular)
-    (gs : List Gate) (hw : ∀ g ∈ gs, WellFormed N g) : ∃ out, toChain N setup gs = .ok out :=
+    (gs : List Route.Gate) (hw : ∀ g ∈ gs, WellFormed N g) : ∃ out, toChain N setup gs = .ok out :=
   toChain_total N setup hs gs hw
 
 /-- **(iv)** the unhandled gates of the output are exactly those of the input, unchanged and in order -/
 theorem circuit_passthrough_order (N : Nat) (setup : Setup) (hs : setup = .linear ∨ setup = .circular)
-    (gs : List Gate) (hw : ∀ g ∈ gs, WellFormed N g) (out : List Gate) (ho : toChain N setup gs = .ok out) :
+    (gs : List Route.Gate) (hw : ∀ g ∈ gs, WellFormed N g) (out : List Route.Gate) (ho : toChain N setup gs = .ok out) :
     out.filter (fun h => !decide (Handled h)) = gs.filter (fun h => !decide (Handled h)) :=
   toChain_unhandled_order N setup hs gs hw out ho
 
 /-- **(i) for circuits.** If the unhandled input gates are in range, every index of the output is. -/
 theorem circuit_in_range (N : Nat) (setup : Setup) (hs : setup = .linear ∨ setup = .circular)
-    (gs : List Gate) (hw : ∀ g ∈ gs, WellFormed N g)
+    (gs : List Route.Gate) (hw : ∀ g ∈ gs, WellFormed N g)
     (hr : ∀ g ∈ gs, ¬ Handled g → ∀ q ∈ g.qubits, q < N)
-    (out : List Gate) (ho : toChain N setup gs = .ok out) : ∀ h ∈ out, ∀ q ∈ h.qubits, q < N := by
+    (out : List Route.Gate) (ho : toChain N setup gs = .ok out) : ∀ h ∈ out, ∀ q ∈ h.qubits, q < N := by
   intro h hm
   obtain ⟨g, hg, a, ha, hma⟩ := toChain_mem ho hm
   by_cases hh : Handled g
@@ -141,8 +141,8 @@ theorem circuit_in_range (N : Nat) (setup : Setup) (hs : setup = .linear ∨ set
 /-- **(ii) for circuits.** Every gate of the output is an unhandled gate of the input or a
 two-qubit gate on neighbours. -/
 theorem circuit_adjacent (N : Nat) (setup : Setup) (hs : setup = .linear ∨ setup = .circular)
-    (gs : List Gate) (hw : ∀ g ∈ gs, WellFormed N g)
-    (out : List Gate) (ho : toChain N setup gs = .ok out) :
+    (gs : List Route.Gate) (hw : ∀ g ∈ gs, WellFormed N g)
+    (out : List Route.Gate) (ho : toChain N setup gs = .ok out) :
     ∀ h ∈ out, (h ∈ gs ∧ ¬ Handled h) ∨ ∃ i j, h.qubits = [i, j] ∧ Adj setup N i j := by
   intro h hm
   obtain ⟨g, hg, a, ha, hma⟩ := toChain_mem ho hm
@@ -165,16 +165,16 @@ variable {M : Type} [Monoid M]
 the one hypothesis `SwapLaws` (SWAP on two distinct qubits squares to one and conjugation by it
 relabels a two-qubit gate by the transposition; exchange-type gates are symmetric), the product
 of the routed gates is the gate. -/
-theorem route_den_gate {N : Nat} {interp : Gate → M} (laws : SwapLaws N interp) (setup : Setup)
-    (hs : setup = .linear ∨ setup = .circular) (g : Gate) (hw : WellFormed N g) (hh : Handled g)
-    (hp : Plain g) (out : List Gate) (ho : routeGate N setup g = .ok out) :
+theorem route_den_gate {N : Nat} {interp : Route.Gate → M} (laws : SwapLaws N interp) (setup : Setup)
+    (hs : setup = .linear ∨ setup = .circular) (g : Route.Gate) (hw : WellFormed N g) (hh : Handled g)
+    (hp : Plain g) (out : List Route.Gate) (ho : routeGate N setup g = .ok out) :
     den interp out = interp g :=
   routeGate_den laws setup hs g hw hh hp out ho
 
 /-- **(v) route_den.** The routed circuit has the same product as the input circuit. -/
-theorem route_den {N : Nat} {interp : Gate → M} (laws : SwapLaws N interp) (setup : Setup)
-    (hs : setup = .linear ∨ setup = .circular) (gs : List Gate) (hw : ∀ g ∈ gs, WellFormed N g)
-    (hp : ∀ g ∈ gs, Handled g → Plain g) (out : List Gate) (ho : toChain N setup gs = .ok out) :
+theorem route_den {N : Nat} {interp : Route.Gate → M} (laws : SwapLaws N interp) (setup : Setup)
+    (hs : setup = .linear ∨ setup = .circular) (gs : List Route.Gate) (hw : ∀ g ∈ gs, WellFormed N g)
+    (hp : ∀ g ∈ gs, Handled g → Plain g) (out : List Route.Gate) (ho : toChain N setup gs = .ok out) :
     den interp out = den interp gs := by
   induction gs generalizing out with
   | nil =>
@@ -193,9 +193,9 @@ theorem route_den {N : Nat} {interp : Gate → M} (laws : SwapLaws N interp) (se
 end
 
 -- the hypotheses are met by a concrete non-trivial circuit
-example : (∀ g ∈ [⟨.other 1, [], [3], 2, 0⟩, ⟨.CNOT, [0], [5], 0, 0⟩, (⟨.SWAPalpha, [], [7, 2], 4, 0⟩ : Gate)],
+example : (∀ g ∈ [⟨.other 1, [], [3], 2, 0⟩, ⟨.CNOT, [0], [5], 0, 0⟩, (⟨.SWAPalpha, [], [7, 2], 4, 0⟩ : Route.Gate)],
       WellFormed 9 g) ∧
-    (∀ g ∈ [⟨.other 1, [], [3], 2, 0⟩, ⟨.CNOT, [0], [5], 0, 0⟩, (⟨.SWAPalpha, [], [7, 2], 4, 0⟩ : Gate)],
+    (∀ g ∈ [⟨.other 1, [], [3], 2, 0⟩, ⟨.CNOT, [0], [5], 0, 0⟩, (⟨.SWAPalpha, [], [7, 2], 4, 0⟩ : Route.Gate)],
       Handled g → Plain g) := by
   constructor
   · intro g hg
@@ -215,7 +215,7 @@ example : (∀ g ∈ [⟨.other 1, [], [3], 2, 0⟩, ⟨.CNOT, [0], [5], 0, 0⟩
 
 /-- `QubitCircuit.adjacent_gates` on a circuit of handled gates is the open-chain router
 (so (i)–(v) apply to it with `setup = linear`) … -/
-theorem adjacent_gates_eq_linear (N : Nat) (gs : List Gate) (hh : ∀ g ∈ gs, Handled g) :
+theorem adjacent_gates_eq_linear (N : Nat) (gs : List Route.Gate) (hh : ∀ g ∈ gs, Handled g) :
     adjacentGates gs = toChain N .linear gs := by
   have : gs.any isMeas = false := by
     rw [List.any_eq_false]; intro g hg; simp [not_isMeas_of_handled (hh g hg)]
@@ -223,7 +223,7 @@ theorem adjacent_gates_eq_linear (N : Nat) (gs : List Gate) (hh : ∀ g ∈ gs, 
   exact adjLoop_eq_toChain N gs hh
 
 /-- … and it refuses circuits that contain a measurement. -/
-theorem adjacent_gates_refuses_measurement (gs : List Gate) (h : ∃ g ∈ gs, isMeas g = true) :
+theorem adjacent_gates_refuses_measurement (gs : List Route.Gate) (h : ∃ g ∈ gs, isMeas g = true) :
     adjacentGates gs = .error .notImplemented := by
   have : gs.any isMeas = true := List.any_eq_true.mpr h
   simp [adjacentGates, adjacentGatesV, this]
@@ -282,7 +282,7 @@ theorem swapLaws_C (N : Nat) (α : ℕ → ℝ) : SwapLaws N (interpH N α) := s
 
 /-- … and for the full interpretation whenever the family of the unhandled gates is covariant on
 two-qubit gates (not needed below). -/
-theorem swapLaws_C_full (N : Nat) (α : ℕ → ℝ) (oth : Gate → Matrix (St N) (St N) ℂ)
+theorem swapLaws_C_full (N : Nat) (α : ℕ → ℝ) (oth : Route.Gate → Matrix (St N) (St N) ℂ)
     (hoth : ∀ i j, i < N → j < N → i ≠ j → ∀ g, ¬ Handled g → TwoQ N g →
       place2 N i j SWAP2 * oth g * place2 N i j SWAP2 = oth (g.relabel (swapAt i j))) :
     SwapLaws N (interpC N α oth) := swapLaws_interpC N α oth hoth
@@ -290,9 +290,9 @@ theorem swapLaws_C_full (N : Nat) (α : ℕ → ℝ) (oth : Gate → Matrix (St 
 /-- **(v) over ℂ, one gate.** For every register size `N`, both topologies, every well-formed
 handled gate: the product of the embedded complex matrices of the routed gates (later gates on
 the left) is the embedded matrix of the gate. -/
-theorem route_den_gate_C (N : Nat) (α : ℕ → ℝ) (oth : Gate → Matrix (St N) (St N) ℂ) (setup : Setup)
-    (hs : setup = .linear ∨ setup = .circular) (g : Gate) (hw : WellFormed N g) (hh : Handled g)
-    (hp : Plain g) (out : List Gate) (ho : routeGate N setup g = .ok out) :
+theorem route_den_gate_C (N : Nat) (α : ℕ → ℝ) (oth : Route.Gate → Matrix (St N) (St N) ℂ) (setup : Setup)
+    (hs : setup = .linear ∨ setup = .circular) (g : Route.Gate) (hw : WellFormed N g) (hh : Handled g)
+    (hp : Plain g) (out : List Route.Gate) (ho : routeGate N setup g = .ok out) :
     den (interpC N α oth) out = interpC N α oth g :=
   routeGate_den_C α oth setup hs g hw hh hp out ho
 
@@ -300,9 +300,9 @@ theorem route_den_gate_C (N : Nat) (α : ℕ → ℝ) (oth : Gate → Matrix (St
 for every `N`, both topologies, every circuit of well-formed gates (handled gates `Plain`), every
 valuation of the SWAPalpha arguments and every interpretation `oth` of the gates the router passes
 through. -/
-theorem route_den_C (N : Nat) (α : ℕ → ℝ) (oth : Gate → Matrix (St N) (St N) ℂ) (setup : Setup)
-    (hs : setup = .linear ∨ setup = .circular) (gs : List Gate) (hw : ∀ g ∈ gs, WellFormed N g)
-    (hp : ∀ g ∈ gs, Handled g → Plain g) (out : List Gate) (ho : toChain N setup gs = .ok out) :
+theorem route_den_C (N : Nat) (α : ℕ → ℝ) (oth : Route.Gate → Matrix (St N) (St N) ℂ) (setup : Setup)
+    (hs : setup = .linear ∨ setup = .circular) (gs : List Route.Gate) (hw : ∀ g ∈ gs, WellFormed N g)
+    (hp : ∀ g ∈ gs, Handled g → Plain g) (out : List Route.Gate) (ho : toChain N setup gs = .ok out) :
     den (interpC N α oth) out = den (interpC N α oth) gs :=
   toChain_den_C α oth setup hs gs hw hp out ho
 
@@ -310,7 +310,7 @@ theorem route_den_C (N : Nat) (α : ℕ → ℝ) (oth : Gate → Matrix (St N) (
 -- interpretation of the routed circuit of the example after `route_in_range` is that of the gate
 example (α : ℕ → ℝ) : interpH 2 α ⟨.CNOT, [0], [1], 0, 0⟩ = toMatD 2 GateE.cnot := interpH_cnot_two α
 
-example (α : ℕ → ℝ) (oth : Gate → Matrix (St 9) (St 9) ℂ) :
+example (α : ℕ → ℝ) (oth : Route.Gate → Matrix (St 9) (St 9) ℂ) :
     den (interpC 9 α oth)
       [swapG 5 6, swapG 8 0, swapG 6 7, ⟨.CNOT, [8], [7], 0, 0⟩, swapG 6 7, swapG 8 0, swapG 5 6] =
     interpC 9 α oth ⟨.CNOT, [0], [5], 0, 0⟩ :=
